@@ -192,6 +192,14 @@ class InterpolatedLinearOperator(LinearOperator):
         self: Float[LinearOperator, "*batch M N"],
         rhs: Union[Float[torch.Tensor, "*batch2 N C"], Float[torch.Tensor, "*batch2 N"]],
     ) -> Union[Float[torch.Tensor, "... M C"], Float[torch.Tensor, "... M"]]:
+        if torch.is_grad_enabled() and (self.left_interp_values.requires_grad or self.right_interp_values.requires_grad):
+            # the sparse matrices below are not differentiable in the interpolation values
+            is_vector = rhs.ndimension() == 1
+            rhs_ = rhs.unsqueeze(-1) if is_vector else rhs
+            res = left_t_interp(self.right_interp_indices, self.right_interp_values, rhs_, self.base_linear_op.size(-1))
+            res = left_interp(self.left_interp_indices, self.left_interp_values, self.base_linear_op._matmul(res))
+            return res.squeeze(-1) if is_vector else res
+
         # Get sparse tensor representations of left/right interp matrices
         left_interp_t = self._sparse_left_interp_t(self.left_interp_indices, self.left_interp_values)
         right_interp_t = self._sparse_right_interp_t(self.right_interp_indices, self.right_interp_values)
@@ -234,6 +242,14 @@ class InterpolatedLinearOperator(LinearOperator):
         self: Float[LinearOperator, "*batch M N"],
         rhs: Union[Float[Tensor, "*batch2 M P"], Float[LinearOperator, "*batch2 M P"]],
     ) -> Union[Float[LinearOperator, "... N P"], Float[Tensor, "... N P"]]:
+        if torch.is_grad_enabled() and (self.left_interp_values.requires_grad or self.right_interp_values.requires_grad):
+            # (see _matmul)
+            is_vector = rhs.ndimension() == 1
+            rhs_ = rhs.unsqueeze(-1) if is_vector else rhs
+            res = left_t_interp(self.left_interp_indices, self.left_interp_values, rhs_, self.base_linear_op.size(-2))
+            res = left_interp(self.right_interp_indices, self.right_interp_values, self.base_linear_op._t_matmul(res))
+            return res.squeeze(-1) if is_vector else res
+
         # Get sparse tensor representations of left/right interp matrices
         left_interp_t = self._sparse_left_interp_t(self.left_interp_indices, self.left_interp_values)
         right_interp_t = self._sparse_right_interp_t(self.right_interp_indices, self.right_interp_values)
